@@ -139,7 +139,8 @@ static void DecodeTRIS(Word Index) {
             AdrWord = 5;
         }
         if (EvalResult.OK) {
-            if (ChkRange(AdrWord, 5, 6)) {
+            /* TRIS f with 5 <= f <= 7; only the 16C84 has no PORTC */
+            if (ChkRange(AdrWord, 5, (MomCPU == CPU16C84) ? 6 : 7)) {
                 WAsmCode[CodeLen++] = 0x0060 | AdrWord;
                 ChkSpace(SegData, EvalResult.AddrSpaceMask);
                 WrError(ErrNum_Obsolete);
